@@ -273,7 +273,12 @@ def make_case(rng, sid, pmode=None, pid=None, vals=None):
     if pmode is None:
         pmode = 1 if rng.chance(1, 5) else 0
     if pid is None:
-        pid = list(PROG_ID) if (pmode == 1 or rng.chance(1, 3)) else rng.bytes(32)
+        # with an explicit seed program (pmode 1) the EXECUTING program is usually a different one: the derivation must
+        # use the seed program's id on every path (canonical search and explicit bump)
+        if pmode == 1:
+            pid = list(PROG_ID) if rng.chance(1, 4) else rng.bytes(32)
+        else:
+            pid = list(PROG_ID) if rng.chance(1, 3) else rng.bytes(32)
     if vals is None:
         vals = [rand_val(rng, t) for t in tys]
     spid = PROG_ID if pmode else pid
@@ -336,13 +341,14 @@ def make_case(rng, sid, pmode=None, pid=None, vals=None):
             cands.append((f2[0], 0, 0))
             cands.append((f2[0], 1, f2[1]))
             orc.create(real + [[f2[1]]], spid)
-    # right seeds, other program
-    other = rng.bytes(32)
-    o2 = Oracle()
-    f2, _ = o2.find(real, other)
-    if f2:
-        cands.append((f2[0], rng.below(2), f2[1]))
-        orc.create(real + [[f2[1]]], spid)
+    # right seeds, other program (a random one, and the executing program when the seed program is another)
+    for other in [rng.bytes(32)] + ([list(pid)] if list(pid) != list(spid) else []):
+        o2 = Oracle()
+        f2, _ = o2.find(real, other)
+        if f2:
+            cands.append((f2[0], 0, 0))
+            cands.append((f2[0], 1, f2[1]))
+            orc.create(real + [[f2[1]]], spid)
     # non-PDAs
     rb = rng.range(0, 255)
     orc.create(real + [[rb]], spid)
